@@ -160,7 +160,7 @@ claim("C05",
       "DESIGN.md section 6 C05")
 claim("C03",
       "Theorems (Coq, unbounded): the implementation's accounting never overflows (budgeted rows per page within "
-      "max 1 (nrow - reserved) or a single-row page), every row the pipeline measures occupies >= 1 line, the budgeted line "
+      "max 1 (nrow - reserved) or a single-row page), every row the pipeline measures occupies >= 1 line (composed: C03_pipeline_accounting), the budgeted line "
       "count of a cell dominates the lines it needs, and budget + reserved <= nrow (C03_partial). The full statement is "
       "refuted on the faithful model by two accounting gaps (known findings, witnessed by C03_refuted_heading_rows). "
       "Against the implementation: rows by role per parsed page with data rows weighted by an independent line bound at "
